@@ -42,8 +42,15 @@ GStates == {"none", "active", "revoked", "expired"}
 \* Components of the state attributed to a principal (order = order of the driver's projection)
 Comps == <<"votes", "nonce", "bconf", "best", "sigs", "evid", "gest", "pad", "alive", "ext", "fee", "val",
            "xfers", "jobs", "usc", "denoms", "lnode", "erc20", "bal", "acct",
-           "params", "chains", "compass", "deploy", "bridge", "observed", "replen", "lnset">>
+           "params", "chains", "compass", "deploy", "bridge", "observed", "replen", "lnset", "dmeta">>
 CompSet == {Comps[i] : i \in DOMAIN Comps}
+(* Components the genesis export of their module does NOT carry on the examined tree (observed with the Reimport perturbation *)
+(* on the unchanged tree and reported): x/valset exports parameters and pigeon requirements only (keep-alives, external chain  *)
+(* accounts are re-registered by the pigeons), x/consensus exports no queue (signatures, evidence, gas estimates, public-access  *)
+(* and error data of queued messages), x/evm exports neither user smart contracts nor the complete chain info, x/scheduler      *)
+(* exports parameters only (jobs), and x/tokenfactory InitGenesis re-creates the bank metadata of every factory denom (metadata  *)
+(* set by the admin is reset).  Reimport is compared on all other components.                                                    *)
+NotInGenesis == {"alive", "ext", "sigs", "evid", "gest", "pad", "usc", "jobs", "chains", "dmeta"}
 GovComps == {"params", "chains", "compass", "deploy", "bridge", "observed", "replen", "lnset"}
 
 (* A row: kind      the driver's name of the tuple class                                             *)
@@ -114,15 +121,15 @@ Rows == <<
   R("PaAuthLightNodeClient",            Pa("MsgAuthLightNodeClient"),                 T, F, "none",    "none",   F, F, F, {"lnode"}),
   R("PaSetLegacyLightNodeClients",      Pa("MsgSetLegacyLightNodeClients"),           T, T, "none",    "none",   F, F, F, {}),
   R("PaUpdateParams",                   Pa("MsgUpdateParams"),                        T, T, "signerc", "field",  F, F, F, {}),
-  R("TfCreateDenom",                    Tf("MsgCreateDenom"),                         T, F, "none",    "none",   F, F, F, {"denoms"}),
+  R("TfCreateDenom",                    Tf("MsgCreateDenom"),                         T, F, "none",    "none",   F, F, F, {"denoms", "dmeta"}),
   R("TfMint",                           Tf("MsgMint"),                                T, F, "none",    "object", T, F, F, {"denoms"}),
   R("TfBurn",                           Tf("MsgBurn"),                                T, F, "none",    "object", T, F, F, {"denoms"}),
-  R("TfChangeAdmin",                    Tf("MsgChangeAdmin"),                         T, F, "none",    "object", T, F, F, {"denoms"}),
-  R("TfSetDenomMetadata",               Tf("MsgSetDenomMetadata"),                    T, F, "none",    "object", T, F, F, {"denoms"}),
+  R("TfChangeAdmin",                    Tf("MsgChangeAdmin"),                         T, F, "none",    "object", T, F, F, {"denoms", "dmeta"}),
+  R("TfSetDenomMetadata",               Tf("MsgSetDenomMetadata"),                    T, F, "none",    "object", T, F, F, {"denoms", "dmeta"}),
   R("TfMintHanded",                     Tf("MsgMint"),                                T, F, "none",    "object", T, F, F, {"denoms"}),
   R("TfBurnHanded",                     Tf("MsgBurn"),                                T, F, "none",    "object", T, F, F, {"denoms"}),
-  R("TfChangeAdminHanded",              Tf("MsgChangeAdmin"),                         T, F, "none",    "object", T, F, F, {"denoms"}),
-  R("TfSetDenomMetadataHanded",         Tf("MsgSetDenomMetadata"),                    T, F, "none",    "object", T, F, F, {"denoms"}),
+  R("TfChangeAdminHanded",              Tf("MsgChangeAdmin"),                         T, F, "none",    "object", T, F, F, {"denoms", "dmeta"}),
+  R("TfSetDenomMetadataHanded",         Tf("MsgSetDenomMetadata"),                    T, F, "none",    "object", T, F, F, {"denoms", "dmeta"}),
   R("TfUpdateParams",                   Tf("MsgUpdateParams"),                        T, T, "signerc", "field",  F, F, F, {}),
   R("ScCreateJob",                      Sc("MsgCreateJob"),                           T, F, "none",    "field",  F, F, F, {"jobs"}),
   R("ScExecuteJob",                     Sc("MsgExecuteJob"),                          T, F, "none",    "object", F, F, F, {}),
@@ -141,45 +148,67 @@ TableUrls  == {Rows[i].url : i \in DOMAIN Rows}
 RoutedUrls == {Rows[i].url : i \in {j \in DOMAIN Rows : Rows[j].routed}}
 
 VARIABLES grants,      \* [Pairs -> GStates] as the next transaction sees the allowances
+          gkind,       \* [Pairs -> AKinds \cup {"-"}] which kind of fee allowance is stored for the pair ("-" = none)
           owned,       \* [P -> [Kinds -> Nat]] version counters of attributed state
           last,        \* the executed action
           res,         \* "ok" | "fail" | "init"
           nops
-vars == <<grants, owned, last, res, nops>>
+vars == <<grants, gkind, owned, last, res, nops>>
 
-\* k1 / ord are only used by Deliver2 (the honest message's kind; 1 = honest message first, 2 = forged first)
+(* Kinds of fee allowance x/feegrant knows: basic, periodic, allowed-msg wrapping a basic or a periodic one; a trailing "+"  *)
+(* means the allowance carries an expiration that lies far in the future (it is valid).  The KIND of the allowance is         *)
+(* irrelevant for the authorisation (any stored, unexpired allowance of the creator for the signer counts) - which is exactly *)
+(* what has to hold for every kind: an allowance of any kind that has passed its expiration authorises nobody.                *)
+BaseKinds == {"basic", "periodic", "amsgb", "amsgp"}
+AKinds == BaseKinds \cup {"basic+", "periodic+", "amsgb+", "amsgp+"}
+
+\* k1 / ord: Deliver2 (the honest message's kind; 1 = honest message first, 2 = forged first), DeliverK (k1 = key variant),
+\* Grant / GrantExp (k1 = allowance kind)
 NoAct == [act |-> "Init", kind |-> "", s |-> 0, c |-> 0, n |-> 0, k1 |-> "", ord |-> 0]
 Act(a, k, s, c, n) == [act |-> a, kind |-> k, s |-> s, c |-> c, n |-> n, k1 |-> "", ord |-> 0]
 Act2(k1, k2, s, c, ord) == [act |-> "Deliver2", kind |-> k2, s |-> s, c |-> c, n |-> c, k1 |-> k1, ord |-> ord]
 
 Init == /\ grants = [pr \in Pairs |-> "none"]
+        /\ gkind = [pr \in Pairs |-> "-"]
         /\ owned = [p \in P |-> [k \in Kinds |-> 0]]
         /\ last = NoAct /\ res = "init" /\ nops = 0
 
 \* what the fee-grant end blocker does at the end of every block: expired allowances are removed
 Prune(g) == [pr \in Pairs |-> IF g[pr] = "expired" THEN "none" ELSE g[pr]]
+PruneK(g, gk) == [pr \in Pairs |-> IF g[pr] = "expired" THEN "-" ELSE gk[pr]]
 
-Grant(g, e) ==
-  /\ <<g, e>> \in Pairs
+Grant(g, e, ak) ==
+  /\ <<g, e>> \in Pairs /\ ak \in AKinds
   /\ LET okk == grants[<<g, e>>] # "active" IN        \* x/feegrant refuses a second allowance for the same pair
      /\ grants' = IF okk THEN [Prune(grants) EXCEPT ![<<g, e>>] = "active"] ELSE Prune(grants)
+     /\ gkind' = IF okk THEN [PruneK(grants, gkind) EXCEPT ![<<g, e>>] = ak] ELSE PruneK(grants, gkind)
      /\ res' = IF okk THEN "ok" ELSE "fail"
-  /\ last' = Act("Grant", "", g, e, 0) /\ nops' = nops + 1 /\ UNCHANGED owned
+  /\ last' = [Act("Grant", "", g, e, 0) EXCEPT !.k1 = ak] /\ nops' = nops + 1 /\ UNCHANGED owned
 
-\* an allowance whose expiration lies between the block that stores it and the next block
-GrantExp(g, e) ==
-  /\ <<g, e>> \in Pairs
+\* an allowance (of any kind) whose expiration lies between the block that stores it and the next block
+GrantExp(g, e, ak) ==
+  /\ <<g, e>> \in Pairs /\ ak \in BaseKinds
   /\ LET okk == grants[<<g, e>>] # "active" IN
      /\ grants' = IF okk THEN [Prune(grants) EXCEPT ![<<g, e>>] = "expired"] ELSE Prune(grants)
+     /\ gkind' = IF okk THEN [PruneK(grants, gkind) EXCEPT ![<<g, e>>] = ak] ELSE PruneK(grants, gkind)
      /\ res' = IF okk THEN "ok" ELSE "fail"
-  /\ last' = Act("GrantExp", "", g, e, 0) /\ nops' = nops + 1 /\ UNCHANGED owned
+  /\ last' = [Act("GrantExp", "", g, e, 0) EXCEPT !.k1 = ak] /\ nops' = nops + 1 /\ UNCHANGED owned
 
 Revoke(g, e) ==
   /\ <<g, e>> \in Pairs
   /\ LET okk == grants[<<g, e>>] \in {"active", "expired"} IN
      /\ grants' = IF okk THEN [Prune(grants) EXCEPT ![<<g, e>>] = "revoked"] ELSE Prune(grants)
+     /\ gkind' = IF okk THEN [PruneK(grants, gkind) EXCEPT ![<<g, e>>] = "-"] ELSE PruneK(grants, gkind)
      /\ res' = IF okk THEN "ok" ELSE "fail"
   /\ last' = Act("Revoke", "", g, e, 0) /\ nops' = nops + 1 /\ UNCHANGED owned
+
+(* Perturbation: the chain state is exported (genesis export of every module) and imported into a fresh application - what  *)
+(* an upgrade by export / a new network started from an export does.  DEFINED as stuttering on every principal's attributed   *)
+(* state; the stored allowances survive it (an expired one is removed by the end blocker of the first block).                *)
+Reimport ==
+  /\ UNCHANGED owned
+  /\ grants' = Prune(grants) /\ gkind' = PruneK(grants, gkind)
+  /\ res' = "ok" /\ last' = Act("Reimport", "", 0, 0, 0) /\ nops' = nops + 1
 
 Granted(g, c, s) == <<c, s>> \in Pairs /\ g[<<c, s>>] = "active"
 
@@ -215,7 +244,7 @@ Deliver(k, s, c, n) ==
       ws  == Writers(k, s, c, n) IN
   /\ owned' = IF okk THEN [p \in P |-> IF p \in ws THEN [owned[p] EXCEPT ![k] = @ + 1] ELSE owned[p]] ELSE owned
   /\ res' = IF okk THEN "ok" ELSE "fail"
-  /\ grants' = Prune(grants)
+  /\ grants' = Prune(grants) /\ gkind' = PruneK(grants, gkind)
   /\ last' = Act("Deliver", k, s, c, n) /\ nops' = nops + 1
 
 (* One transaction carrying TWO messages, both signed by s only: message k1 in s's own name (creator = named = s) and   *)
@@ -231,7 +260,7 @@ Deliver2(k1, k2, s, c, ord) ==
   /\ s \in Users /\ c \in Users /\ s # c /\ ord \in {1, 2}
   /\ owned' = IF okk THEN [p \in P |-> bump(bump(owned[p], k1, p \in w1), k2, p \in w2)] ELSE owned
   /\ res' = IF okk THEN "ok" ELSE "fail"
-  /\ grants' = Prune(grants)
+  /\ grants' = Prune(grants) /\ gkind' = PruneK(grants, gkind)
   /\ last' = Act2(k1, k2, s, c, ord) /\ nops' = nops + 1
 
 (* Key collisions.  Some kinds CREATE or UPSERT an object under a key the sender chooses, in a namespace shared by all        *)
@@ -264,13 +293,17 @@ DeliverK(k, s, c, n, v) ==
   /\ k \in Keyed /\ s \in Users /\ c \in Users /\ n \in Users /\ v \in Variants
   /\ owned' = IF okk THEN [owned EXCEPT ![c][k] = @ + 1] ELSE owned
   /\ res' = IF okk THEN "ok" ELSE "fail"
-  /\ grants' = Prune(grants)
+  /\ grants' = Prune(grants) /\ gkind' = PruneK(grants, gkind)
   /\ last' = [Act("DeliverK", k, s, c, n) EXCEPT !.k1 = v] /\ nops' = nops + 1
 
 \* kinds that can stand in a two-message transaction (plain user / validator messages)
 Plain == {k \in Kinds : ~KT[k].gov /\ KT[k].routed /\ ~KT[k].never /\ ~KT[k].carrier}
 
-Next == \/ \E pr \in Pairs : Grant(pr[1], pr[2]) \/ GrantExp(pr[1], pr[2]) \/ Revoke(pr[1], pr[2])
+GrantOps == \E pr \in Pairs : \/ \E ak \in AKinds : Grant(pr[1], pr[2], ak)
+                              \/ \E ak \in BaseKinds : GrantExp(pr[1], pr[2], ak)
+                              \/ Revoke(pr[1], pr[2])
+Next == \/ GrantOps
+        \/ Reimport
         \/ \E k \in Kinds, s \in P, c \in P, n \in P : Deliver(k, s, c, n)
         \/ \E k1 \in Plain, k2 \in Plain, s \in Users, c \in Users, ord \in {1, 2} : Deliver2(k1, k2, s, c, ord)
         \/ \E k \in Keyed, s \in Users, c \in Users, n \in Users, v \in Variants : DeliverK(k, s, c, n, v)
@@ -283,6 +316,9 @@ Spec == Init /\ [][Next]_vars
 (* same formulas on the observed projections.                                                          *)
 
 TypeOK == /\ grants \in [Pairs -> GStates]
+          /\ \A pr \in Pairs : /\ (grants[pr] \in {"none", "revoked"}) = (gkind[pr] = "-")
+                               /\ (grants[pr] = "active" => gkind[pr] \in AKinds)
+                               /\ (grants[pr] = "expired" => gkind[pr] \in BaseKinds)
           /\ \A p \in P, k \in Kinds : owned[p][k] \in Nat
           /\ res \in {"init", "ok", "fail"}
 
